@@ -25,7 +25,7 @@ import (
 type Violation struct {
 	Sig    string          `json:"sig"`
 	Desc   string          `json:"desc"`
-	Case   json.RawMessage `json:"case"`             // what Replay needs
+	Case   json.RawMessage `json:"case"`              // what Replay needs
 	GoTest string          `json:"go_test,omitempty"` // plain Go test reproducing it
 	Weight int             `json:"weight"`            // smaller = simpler witness
 }
@@ -121,12 +121,12 @@ type Prop struct {
 	Run    func(c *Ctx)
 	Replay func(c *Ctx, raw json.RawMessage) (violated bool, desc string)
 	// Coverage turns merged counters into the level's coverage keys.
-	Rule        string
-	Assumptions []string
-	Workers     int  // 0 = 16
-	NeedsInstr  []string // instrumentation rules that must have matched
+	Rule             string
+	Assumptions      []string
+	Workers          int      // 0 = 16
+	NeedsInstr       []string // instrumentation rules that must have matched
 	DeathIsViolation bool
-	MemKB int // ulimit -v for workers (0 = 8 GiB)
+	MemKB            int // ulimit -v for workers (0 = 8 GiB)
 }
 
 var Registry = map[string]*Prop{}
